@@ -27,6 +27,7 @@ class FakeProcess:
         self._sim = sim
         self._name = name
         self._pid: Optional[int] = None
+        self._exitcode: Optional[int] = None
         self.state = "new"          # new | live | terminating | zombie | reaped
         self.idx = len(sim.procs)
         sim.procs.append(self)
@@ -40,6 +41,17 @@ class FakeProcess:
     def pid(self) -> Optional[int]:
         self._sim.point("pid_read", idx=self.idx)
         return self._pid
+
+    @property
+    def exitcode(self) -> Optional[int]:
+        s = self._sim
+        s.point("exitcode_read", idx=self.idx)
+        if self.state == "zombie":
+            self.state = "reaped"       # reading exitcode polls the child, like is_alive()
+            s.rec("reap", idx=self.idx, via="exitcode")
+        if self.state == "reaped":
+            return self._exitcode
+        return None
 
     def start(self) -> None:
         s = self._sim
@@ -75,6 +87,8 @@ class FakeProcess:
             s.rec("join_blocks", idx=self.idx)
             raise SimStop("join on a live child that was never terminated")
         if self.state in ("terminating", "zombie"):
+            if self.state == "terminating" and self._exitcode is None:
+                self._exitcode = -15
             self.state = "reaped"
             s.rec("reap", idx=self.idx, via="join")
         s.rec("join", idx=self.idx)
@@ -227,8 +241,9 @@ class SuperSim:
             cur = self.current(ev["slot"])
             if cur is not None and cur.state in ("live", "terminating"):
                 cur.state = "zombie"
+                cur._exitcode = ev.get("code", 1)
                 self.fired("child_death")
-                self.rec("inject_die", slot=ev["slot"], idx=cur.idx, pid=cur._pid)
+                self.rec("inject_die", slot=ev["slot"], idx=cur.idx, pid=cur._pid, code=cur._exitcode)
             return
         if kind in ("SIGHUP", "SIGINT", "SIGTERM"):
             signum = getattr(real_signal, kind)
@@ -398,6 +413,7 @@ def gen_super_script(rs: int, knobs: Optional[dict] = None) -> dict:
         ev: Dict[str, Any] = {"ev": kind, "tick": r.randint(0, ticks), "k": r.randint(0, 6 + 8 * workers)}
         if kind == "die":
             ev["slot"] = r.randrange(workers)
+            ev["code"] = r.choice([0, 0, 1, 1, 2, -9, -15, -11])   # clean exit (e.g. max-tasks-per-child), crash, killed
             if r.random() < 0.3 and events:
                 # bias: next to another event (same tick, neighbouring point)
                 o = r.choice(events)
